@@ -54,6 +54,11 @@ var checks = map[string]func(*core.Ctx){
 		session.ClusterStage(c, "cluster with answered surveys differs from the one-broker specification at quiescence", 2, true, []string{"presence"}, 20, 14)
 		c.Finish()
 	},
+	"XRETAIN": func(c *core.Ctx) {
+		c.Level = "model_checking"
+		session.SequentialStage(c, "retain family", "retain", 60, 18)
+		c.Finish()
+	},
 	"XCLUSTER": func(c *core.Ctx) {
 		c.Level = "model_checking"
 		session.ClusterStage(c, "cluster differs from the one-broker specification at quiescence", 2, false, []string{"pubsub", "presence", "ending"}, 30, 14)
